@@ -1,12 +1,15 @@
 /-
-  SfModel.SdsScan — the block-count scan of sds_read_header (src/sds.c:279):
+  SfModel.SdsScan — the block-count scan of sds_read_header (src/sds.c:282), as it is since /repo 62c7950:
 
       for (blockcount = 0 ; bytesread < psf->filelength ; blockcount++)
-      {   bytesread += (int) psf_fread (&marker, 1, 2, psf) ;
-          if (marker == 0) break ;
+      {   int got = (int) psf_fread (&marker, 1, 2, psf) ;
+          bytesread += got ;
+          if (got != 2 || marker == 0) break ;
           psf_fseek (psf, SDS_BLOCK_SIZE - 2, SEEK_CUR) ;
           bytesread += SDS_BLOCK_SIZE - 2 ;
           }
+
+  and as it was before (`Rule.old`):   bytesread += (int) psf_fread (&marker, 1, 2, psf) ; if (marker == 0) break ;
 
   The I/O layer is an oracle: the k-th psf_fread delivers `(o k).1` bytes (0, 1 or 2) and leaves
   `(o k).2` in `marker`; when nothing is delivered `marker` keeps its value.  For a pipe
@@ -17,7 +20,18 @@ namespace Sf.SdsScan
 def SDS_BLOCK_SIZE : Int := 127
 def SF_COUNT_MAX : Int := 9223372036854775807
 
-def scan (filelength : Int) (o : Nat → Nat × Nat) : Nat → Nat → Int → Nat → Option Nat
+inductive Rule where
+  | old        -- before 62c7950: only `marker == 0` leaves the loop
+  | current    -- a short read leaves it too
+deriving Repr, DecidableEq, Inhabited
+
+/-- the loop's `break` test -/
+def stopNow (r : Rule) (got : Int) (marker : Nat) : Bool :=
+  match r with
+  | .old => decide (marker = 0)
+  | .current => decide (got ≠ 2 ∨ marker = 0)
+
+def scan (r : Rule) (filelength : Int) (o : Nat → Nat × Nat) : Nat → Nat → Int → Nat → Option Nat
   | fuel, k, bytesread, marker =>
     if bytesread < filelength then
       match fuel with
@@ -25,8 +39,8 @@ def scan (filelength : Int) (o : Nat → Nat × Nat) : Nat → Nat → Int → N
       | fuel + 1 =>
         let got : Int := if (o k).1 ≥ 2 then 2 else (o k).1
         let marker' := if (o k).1 = 0 then marker else (o k).2
-        if marker' = 0 then some k
-        else scan filelength o fuel (k + 1) (bytesread + got + (SDS_BLOCK_SIZE - 2)) marker'
+        if stopNow r got marker' then some k
+        else scan r filelength o fuel (k + 1) (bytesread + got + (SDS_BLOCK_SIZE - 2)) marker'
     else some k
 
 /-- end of input: every read delivers nothing -/
